@@ -310,6 +310,12 @@ impl<'a> From<BadKey<'a>> for SmallString {
     }
 }
 
+impl<'a> From<&'a str> for BadKey<'a> {
+    fn from(v: &'a str) -> Self {
+        BadKey(v)
+    }
+}
+
 struct GoodKey<'a>(&'a str);
 
 impl KnownQualifierKey for GoodKey<'_> {
@@ -358,6 +364,27 @@ fn documented_panics(ctx: &mut Ctx, r: &mut Rng) {
     }) {
         ctx.st.violation("C06.panic", "C06.panic:panicked:insert_typed-valid-key".into(), format!("insert_typed with a valid KEY panicked: {m}"), json!({"kind": "documented"}));
     }
+    // only *inserting* under an invalid declared key is a documented panic: removing, reading
+    // and testing for it are not
+    let mut q = Qualifiers::default();
+    let _ = q.insert("k", v.as_str());
+    if let Out::Panic(m) = guard("typed reads / removal (invalid KEY)", || {
+        q.remove_typed::<BadKey>();
+        let a = q.contains_typed::<BadKey>();
+        let b = q.get_typed::<BadKey>().is_some();
+        let c = matches!(q.try_get_typed::<BadKey>(), Ok(Some(_)));
+        (a, b, c)
+    }) {
+        ctx.st.violation("C06.panic", "C06.panic:panicked:typed-read-or-removal-invalid-key".into(), format!("remove_typed / contains_typed / get_typed / try_get_typed with an invalid KEY panicked: {m}"), json!({"kind": "documented"}));
+    }
+    let b = GenericPurlBuilder::new("t".to_string(), "n");
+    if let Out::Panic(m) = guard("with_typed_qualifier(None) (invalid KEY)", || {
+        let b = b.with_typed_qualifier(None::<BadKey>);
+        b.try_with_typed_qualifier(None::<BadKey>).map(|b| b.parts.qualifiers.len()).unwrap_or(0)
+    }) {
+        ctx.st.violation("C06.panic", "C06.panic:panicked:typed-none-invalid-key".into(), format!("with_typed_qualifier(None) / try_with_typed_qualifier(None) with an invalid KEY panicked: {m}"), json!({"kind": "documented"}));
+    }
+    ctx.st.count("typed-non-insert-operations-with-invalid-key");
     // small public helpers that take no input
     if let Out::Panic(m) = guard("PurlField helpers", || {
         use purl::PurlField::*;
